@@ -346,6 +346,53 @@ pub fn run(prop: &'static str, tier: &str) -> i32 {
         });
         all.merge(Acc::merge_all(accs));
     }
+    // ---- the clock moves on between creating a builder and building from it (a builder kept around): the default
+    //      claims are those of the creation instant on every build
+    if prop == "C13" {
+        use crate::adapter::{BEvent, BOp, ClaimSpec, Layer, Out};
+        let accs = crate::explore::par_units(&Proto::ALL.to_vec(), |p| {
+            let mut acc = Acc::default();
+            let key = crate::domains::key_pool(*p)[0].clone();
+            let t0 = clks[0];
+            let s_ns = 1_000_000_000i128;
+            for dts in [vec![3_599 * s_ns + 999_999_999], vec![3_600 * s_ns], vec![3_600 * s_ns + 1], vec![2 * 3_600 * s_ns, 25 * 3_600 * s_ns], vec![-3_600 * s_ns], vec![400 * 86_400 * s_ns], vec![1, 3_600 * s_ns, -1]] {
+                for with_sub in [false, true] {
+                    crate::adapter::set_clock(Some(time::OffsetDateTime::from_unix_timestamp_nanos(t0).unwrap()));
+                    let mut ops: Vec<BOp> = Vec::new();
+                    if with_sub {
+                        ops.push(BOp::Claim(ClaimSpec::auto("sub", json!("alice"))));
+                    }
+                    for dt in &dts {
+                        ops.push(BOp::Clock((t0 + dt).to_string()));
+                        ops.push(BOp::Build);
+                    }
+                    let (ev, _) = crate::adapter::with_rng_script(vec![], || crate::adapter::build_history(*p, Layer::Prelude, &key.sk, &ops));
+                    crate::adapter::freeze_default_clock();
+                    acc.executions += dts.len() as u64;
+                    acc.choice_points += 1;
+                    for (bi, b) in ev.iter().filter(|e| matches!(e, BEvent::Built(_))).enumerate() {
+                        let payload = match b {
+                            BEvent::Built(Out::Ok(t)) => crate::adapter::core_present(*p, &key.pk, t, None, None).ok().cloned(),
+                            _ => None,
+                        };
+                        let v: Value = payload.as_deref().and_then(|x| serde_json::from_str(x).ok()).unwrap_or(Value::Null);
+                        let inst = |k: &str| v[k].as_str().and_then(crate::rfc3339::parse).map(|(_, t)| t);
+                        if inst("iat") == Some(t0) && inst("nbf") == Some(t0) && inst("exp") == Some(t0 + 3_600 * s_ns) {
+                            acc.bump("clock-moved-before-build:conforms");
+                        } else {
+                            acc.violate(
+                                format!("C13|{}|clock-moved-between-creation-and-build", p.name()),
+                                format!("builder created at t0, clock moved by {:?} ns before build #{}: payload {} - iat and nbf must be t0, exp t0 + 1 h", dts, bi + 1, v),
+                                json!({"near_miss": ["clock-moved", p.name(), dts.iter().map(|d| d.to_string()).collect::<Vec<_>>()]}),
+                            );
+                        }
+                    }
+                }
+            }
+            acc
+        });
+        all.merge(Acc::merge_all(accs));
+    }
     // ---- pairs of keys that differ by case, white space or Unicode normalisation are different keys
     if prop == "C17" {
         let near: [&str; 9] = ["role", "Role", "ROLE", "role ", " role", "role\n", "r\u{00f4}le", "ro\u{0302}le", "rol"];
